@@ -15,7 +15,7 @@ const PropertyInfo kInfo = {
     "socketpair that the node adopts as an inbound connection. (b) post-handshake: a fake peer with a registered session key delivers validly SIGNED messages to the transport handler: "
     "ANNOUNCE with manifests built by the harness with adversarial shard sets (duplicate indices, index 0, threshold 0 / 255 / > shards, 255 shards), expired / far-future expiry, "
     "assigned shards present or not, huge TTLs; CHUNK (random bytes, genuine ciphertext, empty) for chunks whose manifest was just announced; REQUEST / ACK for unknown chunks; wrong "
-    "message/payload combinations; unsigned garbage; handshake payloads with arbitrary keys; ticks and clock advances in between. (c) control plane: grammar-built requests with adversarial "
+    "message/payload combinations; truncated / length-patched encodings carrying a VALID MAC; unsigned garbage; handshake payloads with arbitrary keys; ticks and clock advances in between. (c) control plane: grammar-built requests with adversarial "
     "values (empty / relative / directory OUT:, MANIFEST of adversarial manifests for a locally stored chunk, huge / negative / non-numeric PAYLOAD-LENGTH and TTL, very long lines, missing "
     "blank line, binary bytes) and raw bytes to the in-process ControlServer (stream cap generated incl. 0 = unlimited). Oracle: no sanitizer report, no exception out of a handler (an "
     "exception on a daemon thread is std::terminate), no hang (watchdog); after every case a liveness probe: control PING is answered and a benign peer's REQUEST for a stored chunk still "
@@ -239,6 +239,34 @@ void run_case(Ctx& c) {
                 case 7: {
                     network::TransportMessage tm{};
                     tm.peer_id = evil.id;
+                    if (r.a(5) & 1) {
+                        // a validly MACed but malformed body: truncate / patch a genuine encoding, then sign it
+                        protocol::Message msg{};
+                        msg.type = protocol::MessageType::Announce;
+                        protocol::AnnouncePayload a{};
+                        a.chunk_id = cid(k);
+                        a.peer_id = evil.id;
+                        a.endpoint = "127.0.0.1:9";
+                        a.manifest_uri = protocol::encode_manifest(base[k]);
+                        a.assigned_shards = {1, 2, 3};
+                        msg.payload = a;
+                        if (r.a(6) % 3 == 1) { msg.type = protocol::MessageType::Chunk; protocol::ChunkPayload cp{}; cp.chunk_id = cid(k); cp.data = g.bytes(40); msg.payload = cp; }
+                        auto body = protocol::encode(msg);
+                        switch (r.a(2) % 4) {
+                            case 0: body.resize(body.size() - std::min<std::size_t>(body.size(), 1 + r.a(3) % 40)); break;
+                            case 1: if (body.size() > 20) { std::size_t pos = 6 + r.a(3) % 12; body[pos] = 0xFF; body[pos + 1] = 0xFF; } break;  // length fields
+                            case 2: body.resize(2 + r.a(3) % 30); break;
+                            case 3: if (!body.empty()) body[r.a16(3) % body.size()] ^= 0x80; break;
+                        }
+                        auto key = evil.key();
+                        auto mac = refs::hmac_sha256(key.data(), key.size(), body.data(), body.size());
+                        body.insert(body.end(), mac.begin(), mac.end());
+                        tm.payload = body;
+                        c.note("|signed-malformed(%zuB)", tm.payload.size());
+                        guarded(c, "transport-message-handler", [&] { vnode::Access::handle_transport_message(node, tm); });
+                        c.nt("signed_message_reached_handler");
+                        break;
+                    }
                     tm.payload = g.bytes(r.a(1) % 120);
                     c.note("|garbage(%zuB)", tm.payload.size());
                     guarded(c, "transport-message-handler", [&] { vnode::Access::handle_transport_message(node, tm); });
